@@ -5,6 +5,7 @@ import (
 	"sync"
 
 	"github.com/lugu/qiloop/type/object"
+	"github.com/lugu/qiloop/vhook"
 )
 
 type privateNamespace struct {
@@ -36,6 +37,7 @@ func (ns *privateNamespace) Reserve(name string) (uint32, error) {
 	}
 	ns.reserved[name] = ns.next
 	ns.next++
+	vhook.Emit("namespace", ns, "reserve", "name", name, "service", ns.reserved[name])
 	return ns.reserved[name], nil
 }
 
@@ -51,9 +53,11 @@ func (ns *privateNamespace) Remove(serviceID uint32) error {
 	for name, id := range ns.reserved {
 		if id == serviceID {
 			delete(ns.reserved, name)
+			vhook.Emit("namespace", ns, "remove", "name", name, "service", serviceID, "ok", true)
 			return nil
 		}
 	}
+	vhook.Emit("namespace", ns, "remove", "name", "", "service", serviceID, "ok", false)
 	return fmt.Errorf("service %d not in use", serviceID)
 }
 
@@ -63,6 +67,7 @@ func (ns *privateNamespace) Enable(serviceID uint32) error {
 	for name, id := range ns.reserved {
 		if id == serviceID {
 			ns.activated[name] = serviceID
+			vhook.Emit("namespace", ns, "enable", "name", name, "service", serviceID)
 			return nil
 		}
 	}
